@@ -46,10 +46,12 @@ BaseAttr(c) ==
     [] c = 6 -> [acct |-> 0, scope |-> "bip86", val |-> 32, cb |-> FALSE]
     [] c = 7 -> [acct |-> 0, scope |-> "bip49", val |-> 64, cb |-> FALSE]     \* nested pay-to-witness-key-hash
     [] c = 8 -> [acct |-> 0, scope |-> "bip44", val |-> 128, cb |-> FALSE]    \* legacy pay-to-pubkey-hash
+    [] c = 9 -> [acct |-> 2, scope |-> "bip84", val |-> 256, cb |-> FALSE]    \* paid to a singly imported private key ("account" 2 = the imported-keys account; no request is made from it)
 
 \* key scopes requests are made for: those of the base coins in play
 Scopes == {BaseAttr(c).scope : c \in 1..NBase}
-Accts  == {0, 1}
+Accts  == {0, 1}                                          \* accounts requests are made from
+ObsAccts == Accts \cup {BaseAttr(c).acct : c \in 1..NBase} \* accounts whose balances are observed
 
 VARIABLES
     st,       \* [Coin -> -1 (not received) | 0 (unconfirmed) | 1..MaxTip (confirming height)]
@@ -118,8 +120,8 @@ ScopeBal(sc, a, mc) == {c \in Coin : Exists(c) /\ spentBy[c] = 0 /\ leased[c] = 
                                       /\ ~Immature(c) /\ Confs(c) >= mc}
 
 Obs == [ tip |-> tip,
-         acctBal |-> [a \in Accts |-> AcctBal(a)],
-         scopeBal |-> [sc \in Scopes |-> [a \in Accts |-> [mc \in 0..1 |-> ScopeBal(sc, a, mc)]]],
+         acctBal |-> [a \in ObsAccts |-> AcctBal(a)],
+         scopeBal |-> [sc \in Scopes |-> [a \in ObsAccts |-> [mc \in 0..1 |-> ScopeBal(sc, a, mc)]]],
          st |-> st, spentBy |-> spentBy,
          spendable |-> Spendable,
          bal |-> [mc \in 0..(Mat+1) |-> Counts(mc)],
